@@ -72,10 +72,17 @@ impl Case {
             Self::Lower => variant.to_ascii_lowercase(),
             Self::Upper => variant.to_ascii_uppercase(),
             Self::Camel => variant[..1].to_ascii_lowercase() + &variant[1..],
-            Self::Snake => variant
-                .split(char::is_uppercase)
-                .map(str::to_ascii_lowercase)
-                .collect::<Vec<_>>().join("_"),
+            Self::Snake => {
+                /* as serde does: an underscore before every capital but the first */
+                let mut snake = String::new();
+                for (i, ch) in variant.char_indices() {
+                    if i > 0 && ch.is_uppercase() {
+                        snake.push('_');
+                    }
+                    snake.push(ch.to_ascii_lowercase());
+                }
+                snake
+            }
             Self::ScreamingSnake => Self::Snake
                 .apply_to_variant(variant)
                 .to_ascii_uppercase(),
